@@ -44,7 +44,8 @@ func init() {
 
 // Op is one generated operation.
 type Op struct {
-	// K is one of discover request decline release sadd supd srm advance restart.
+	// K is one of discover request decline release sadd supd srm advance restart
+	// setconf.
 	K string `json:"k"`
 	// M is the index of the client (MAC) the message comes from or the static
 	// lease is for.
@@ -70,6 +71,17 @@ type Op struct {
 	IP string `json:"ip,omitempty"`
 	// Ms is the length of a clock advance.
 	Ms int64 `json:"ms,omitempty"`
+	// A setconf op (POST /control/dhcp/set_config): En is the "enabled" field
+	// ("" absent, "on", "off"); V4 says what the "v4" section carries: ""
+	// absent, "same" the configuration in force, "new" the range Lo..Lo+N-1
+	// (last octets) with lease time Ls seconds, or an invalid section "gw"
+	// (range contains the gateway), "outside" (range end outside the subnet),
+	// "inverted" (start after end), "nostart" (no range start).
+	En string `json:"en,omitempty"`
+	V4 string `json:"v4,omitempty"`
+	Lo int    `json:"lo,omitempty"`
+	N  int    `json:"n,omitempty"`
+	Ls int    `json:"ls,omitempty"`
 }
 
 // Scenario is one case.
@@ -163,7 +175,7 @@ func genHost(t *rapid.T, n int, label string) string {
 // Gen draws a scenario.
 func Gen(t *rapid.T, tier string) any {
 	sc := &Scenario{}
-	sc.Pool = rapid.SampledFrom([]int{2, 2, 3, 3, 3, 4, 5, 8, 20}).Draw(t, "pool")
+	sc.Pool = rapid.SampledFrom(poolSizes).Draw(t, "pool")
 	sc.LeaseSec = rapid.SampledFrom([]int{60, 120, 3600, 86400}).Draw(t, "lease_s")
 	if rapid.IntRange(0, 3).Draw(t, "many_macs") == 0 {
 		sc.Macs = rapid.IntRange(1, 25).Draw(t, "macs_any")
@@ -176,110 +188,187 @@ func Gen(t *rapid.T, tier string) any {
 		maxOps = 120
 	}
 	nOps := rapid.IntRange(3, maxOps).Draw(t, "n_ops")
-	n := sc.Pool
-	leaseMs := int64(sc.LeaseSec) * 1000
 	for len(sc.Ops) < nOps {
-		m := rapid.IntRange(0, sc.Macs-1).Draw(t, "mac")
-		op := Op{M: m}
-		switch k := rapid.IntRange(0, 99).Draw(t, "kind"); {
-		case k < 16:
-			op.K = "discover"
-			op.Host = genHost(t, n, "d_host")
-			op.Req = genRef(t, n, "d_req", 0, 1, 1, 2, 8)
-			op.Bc = rapid.IntRange(0, 3).Draw(t, "d_bc") == 0
-		case k < 30:
-			// A well-behaved DISCOVER + REQUEST(selecting) pair.
-			host := genHost(t, n, "p_host")
-			sc.Ops = append(sc.Ops, Op{K: "discover", M: m, Host: host})
-			op.K, op.Sid, op.Req, op.Host = "request", "ok", "off", host
-			op.Prl = rapid.IntRange(0, 2).Draw(t, "p_prl") == 0
-		case k < 40:
-			op.K = "request" // selecting
-			op.Sid = rapid.SampledFrom([]string{"ok", "ok", "ok", "bad"}).Draw(t, "s_sid")
-			op.Req = genRef(t, n, "s_req", 10, 1, 2, 5, 1)
-			if rapid.IntRange(0, 9).Draw(t, "s_ci") == 0 {
-				op.Ci = genRef(t, n, "s_ci_ref", 1, 1, 1, 1, 0)
-			}
-			op.Host = genHost(t, n, "s_host")
-			op.Prl = rapid.IntRange(0, 2).Draw(t, "s_prl") == 0
-		case k < 46:
-			op.K = "request" // init-reboot
-			op.Req = genRef(t, n, "i_req", 1, 5, 2, 3, 0)
-			op.Host = genHost(t, n, "i_host")
-		case k < 54:
-			op.K = "request" // renew / rebind
-			op.Ci = genRef(t, n, "r_ci", 1, 6, 2, 2, 0)
-			op.Host = genHost(t, n, "r_host")
-			op.Prl = rapid.IntRange(0, 2).Draw(t, "r_prl") == 0
-		case k < 57:
-			op.K = "decline"
-			if rapid.IntRange(0, 3).Draw(t, "x_via_ci") == 0 {
-				op.Ci = genRef(t, n, "x_ci", 3, 3, 2, 2, 0)
-			} else {
-				op.Req = genRef(t, n, "x_req", 3, 3, 2, 2, 0)
-			}
-		case k < 66:
-			op.K = "release"
-			if rapid.IntRange(0, 3).Draw(t, "l_via_req") == 0 {
-				op.Req = genRef(t, n, "l_req", 1, 4, 2, 2, 0)
-			} else {
-				op.Ci = genRef(t, n, "l_ci", 1, 4, 2, 2, 0)
-			}
-		case k < 75:
-			op.K = "sadd"
-			op.IP = genAddrLit(t, n, "a_ip")
-			if rapid.IntRange(0, 19).Draw(t, "a_ip_odd") == 0 {
-				op.IP = rapid.SampledFrom([]string{"", "::ffff:" + poolAddr(0).String(), "::ffff:" + poolAddr(1).String(), "cur", "bogus"}).Draw(t, "a_ip_odd_v")
-			}
-			op.Host = genHost(t, n, "a_host")
-			if rapid.IntRange(0, 19).Draw(t, "a_mac_odd") == 0 {
-				op.Mac = rapid.SampledFrom([]string{"", "zz", "02:00:00:00:00", "02:00:00:00:00:01:02:03"}).Draw(t, "a_mac_odd_v")
-			}
-		case k < 79:
-			op.K = "supd"
-			op.IP = genAddrLit(t, n, "u_ip")
-			if rapid.IntRange(0, 3).Draw(t, "u_ip_cur") == 0 {
-				op.IP = "cur"
-			}
-			op.Host = genHost(t, n, "u_host")
-			if rapid.IntRange(0, 3).Draw(t, "u_host_cur") == 0 {
-				op.Host = "=cur"
-			}
-		case k < 84:
-			op.K = "srm"
-			op.IP, op.Host = "cur", "=cur"
-			if rapid.IntRange(0, 4).Draw(t, "m_lit") == 0 {
-				op.IP = genAddrLit(t, n, "m_ip")
-			}
-			if rapid.IntRange(0, 4).Draw(t, "m_hlit") == 0 {
-				op.Host = genHost(t, n, "m_host")
-			}
-		case k < 95:
-			op = Op{K: "advance"}
-			switch rapid.IntRange(0, 8).Draw(t, "adv_kind") {
-			case 0:
-				op.Ms = int64(rapid.IntRange(1, 5000).Draw(t, "adv_ms"))
-			case 1:
-				op.Ms = leaseMs / 2
-			case 2:
-				op.Ms = leaseMs - 1000
-			case 3:
-				op.Ms = leaseMs
-			case 4:
-				op.Ms = leaseMs + 1000
-			case 5:
-				op.Ms = leaseMs/2 + 1
-			case 6:
-				op.Ms = leaseMs - int64(rapid.IntRange(0, 999).Draw(t, "adv_sub"))
-			default:
-				op.Ms = leaseMs * int64(rapid.IntRange(2, 5).Draw(t, "adv_mult"))
-			}
-		default:
-			op = Op{K: "restart"}
-		}
-		sc.Ops = append(sc.Ops, op)
+		k := rapid.IntRange(0, kindMax).Draw(t, "kind")
+		sc.Ops = append(sc.Ops, genOps(t, sc, k)...)
 	}
 	return sc
+}
+
+// Kinds of generated operations: [0, kindStatic) DHCP messages, [kindStatic,
+// kindAdvance) static-lease operations, [kindAdvance, kindRestart) clock
+// advances, [kindRestart, kindSetconf) restarts, [kindSetconf, kindMax]
+// configuration changes.
+const (
+	kindStatic  = 66
+	kindAdvance = 84
+	kindRestart = 95
+	kindSetconf = 100
+	kindMax     = 104
+)
+
+var poolSizes = []int{2, 2, 3, 3, 3, 4, 5, 8, 20}
+
+// genSetconf draws one set_config request of the given flavour.
+func genSetconf(t *rapid.T, sc *Scenario, flavour string) Op {
+	op := Op{K: "setconf"}
+	newRange := func() {
+		op.V4 = "new"
+		op.Lo = rapid.SampledFrom([]int{poolBase, poolBase, poolBase, poolBase - 1, poolBase + 1, poolBase + 2}).Draw(t, "c_lo")
+		op.N = rapid.SampledFrom(poolSizes).Draw(t, "c_n")
+		op.Ls = rapid.SampledFrom([]int{sc.LeaseSec, sc.LeaseSec, 60, 120, 3600}).Draw(t, "c_ls")
+	}
+	switch flavour {
+	case "off":
+		op.En = "off"
+		switch rapid.IntRange(0, 3).Draw(t, "c_off_v4") {
+		case 0:
+			op.V4 = ""
+		case 1:
+			newRange()
+		default:
+			op.V4 = "same"
+		}
+	case "on":
+		op.En = rapid.SampledFrom([]string{"on", "on", "on", ""}).Draw(t, "c_on_en")
+		if rapid.IntRange(0, 2).Draw(t, "c_on_new") == 0 {
+			newRange()
+		} else {
+			op.V4 = "same"
+		}
+	default:
+		op.En = rapid.SampledFrom([]string{"on", "off", ""}).Draw(t, "c_bad_en")
+		op.V4 = rapid.SampledFrom([]string{"", "gw", "outside", "inverted", "nostart"}).Draw(t, "c_bad_v4")
+		if op.V4 == "" {
+			// Enabling without a v4 section.
+			op.En = "on"
+		}
+	}
+	return op
+}
+
+// genOps draws the operation(s) of kind k.
+func genOps(t *rapid.T, sc *Scenario, k int) (ops []Op) {
+	n := sc.Pool
+	leaseMs := int64(sc.LeaseSec) * 1000
+	m := rapid.IntRange(0, sc.Macs-1).Draw(t, "mac")
+	op := Op{M: m}
+	switch {
+	case k < 16:
+		op.K = "discover"
+		op.Host = genHost(t, n, "d_host")
+		op.Req = genRef(t, n, "d_req", 0, 1, 1, 2, 8)
+		op.Bc = rapid.IntRange(0, 3).Draw(t, "d_bc") == 0
+	case k < 30:
+		// A well-behaved DISCOVER + REQUEST(selecting) pair.
+		host := genHost(t, n, "p_host")
+		ops = append(ops, Op{K: "discover", M: m, Host: host})
+		op.K, op.Sid, op.Req, op.Host = "request", "ok", "off", host
+		op.Prl = rapid.IntRange(0, 2).Draw(t, "p_prl") == 0
+	case k < 40:
+		op.K = "request" // selecting
+		op.Sid = rapid.SampledFrom([]string{"ok", "ok", "ok", "bad"}).Draw(t, "s_sid")
+		op.Req = genRef(t, n, "s_req", 10, 1, 2, 5, 1)
+		if rapid.IntRange(0, 9).Draw(t, "s_ci") == 0 {
+			op.Ci = genRef(t, n, "s_ci_ref", 1, 1, 1, 1, 0)
+		}
+		op.Host = genHost(t, n, "s_host")
+		op.Prl = rapid.IntRange(0, 2).Draw(t, "s_prl") == 0
+	case k < 46:
+		op.K = "request" // init-reboot
+		op.Req = genRef(t, n, "i_req", 1, 5, 2, 3, 0)
+		op.Host = genHost(t, n, "i_host")
+	case k < 54:
+		op.K = "request" // renew / rebind
+		op.Ci = genRef(t, n, "r_ci", 1, 6, 2, 2, 0)
+		op.Host = genHost(t, n, "r_host")
+		op.Prl = rapid.IntRange(0, 2).Draw(t, "r_prl") == 0
+	case k < 57:
+		op.K = "decline"
+		if rapid.IntRange(0, 3).Draw(t, "x_via_ci") == 0 {
+			op.Ci = genRef(t, n, "x_ci", 3, 3, 2, 2, 0)
+		} else {
+			op.Req = genRef(t, n, "x_req", 3, 3, 2, 2, 0)
+		}
+	case k < kindStatic:
+		op.K = "release"
+		if rapid.IntRange(0, 3).Draw(t, "l_via_req") == 0 {
+			op.Req = genRef(t, n, "l_req", 1, 4, 2, 2, 0)
+		} else {
+			op.Ci = genRef(t, n, "l_ci", 1, 4, 2, 2, 0)
+		}
+	case k < 75:
+		op.K = "sadd"
+		op.IP = genAddrLit(t, n, "a_ip")
+		if rapid.IntRange(0, 19).Draw(t, "a_ip_odd") == 0 {
+			op.IP = rapid.SampledFrom([]string{"", "::ffff:" + poolAddr(0).String(), "::ffff:" + poolAddr(1).String(), "cur", "bogus"}).Draw(t, "a_ip_odd_v")
+		}
+		op.Host = genHost(t, n, "a_host")
+		if rapid.IntRange(0, 19).Draw(t, "a_mac_odd") == 0 {
+			op.Mac = rapid.SampledFrom([]string{"", "zz", "02:00:00:00:00", "02:00:00:00:00:01:02:03"}).Draw(t, "a_mac_odd_v")
+		}
+	case k < 79:
+		op.K = "supd"
+		op.IP = genAddrLit(t, n, "u_ip")
+		if rapid.IntRange(0, 3).Draw(t, "u_ip_cur") == 0 {
+			op.IP = "cur"
+		}
+		op.Host = genHost(t, n, "u_host")
+		if rapid.IntRange(0, 3).Draw(t, "u_host_cur") == 0 {
+			op.Host = "=cur"
+		}
+	case k < kindAdvance:
+		op.K = "srm"
+		op.IP, op.Host = "cur", "=cur"
+		if rapid.IntRange(0, 4).Draw(t, "m_lit") == 0 {
+			op.IP = genAddrLit(t, n, "m_ip")
+		}
+		if rapid.IntRange(0, 4).Draw(t, "m_hlit") == 0 {
+			op.Host = genHost(t, n, "m_host")
+		}
+	case k < kindRestart:
+		op = Op{K: "advance"}
+		switch rapid.IntRange(0, 8).Draw(t, "adv_kind") {
+		case 0:
+			op.Ms = int64(rapid.IntRange(1, 5000).Draw(t, "adv_ms"))
+		case 1:
+			op.Ms = leaseMs / 2
+		case 2:
+			op.Ms = leaseMs - 1000
+		case 3:
+			op.Ms = leaseMs
+		case 4:
+			op.Ms = leaseMs + 1000
+		case 5:
+			op.Ms = leaseMs/2 + 1
+		case 6:
+			op.Ms = leaseMs - int64(rapid.IntRange(0, 999).Draw(t, "adv_sub"))
+		default:
+			op.Ms = leaseMs * int64(rapid.IntRange(2, 5).Draw(t, "adv_mult"))
+		}
+	case k < kindSetconf:
+		op = Op{K: "restart"}
+	default:
+		switch f := rapid.IntRange(0, 9).Draw(t, "c_flavour"); {
+		case f < 4:
+			// A period with DHCP switched off: the administrator's operations
+			// that make sense meanwhile (static leases, time passing, a
+			// restart), then usually switched on again.
+			ops = append(ops, genSetconf(t, sc, "off"))
+			for i, ni := 0, rapid.IntRange(0, 3).Draw(t, "c_inner"); i < ni; i++ {
+				ops = append(ops, genOps(t, sc, rapid.IntRange(kindStatic, kindSetconf-1).Draw(t, "c_inner_kind"))...)
+			}
+			if rapid.IntRange(0, 4).Draw(t, "c_back_on") == 0 {
+				return ops
+			}
+			op = genSetconf(t, sc, "on")
+		case f < 8:
+			op = genSetconf(t, sc, "on")
+		default:
+			op = genSetconf(t, sc, "bad")
+		}
+	}
+	return append(ops, op)
 }
 
 // ---- observed state ------------------------------------------------------------
@@ -392,6 +481,7 @@ type dhcpServer interface {
 	HostByIP(ip netip.Addr) string
 	IPByHost(host string) netip.Addr
 	MACByIP(ip netip.Addr) net.HardwareAddr
+	WriteDiskConfig(c *dhcpd.ServerConfig)
 	VerifV4ConfigureDNSIPAddrs(ips []net.IP) bool
 	VerifV4HandlePacket(conn net.PacketConn, peer net.Addr, req *dhcpv4.DHCPv4) bool
 	VerifV4Table() *dhcpd.VerifV4Table
@@ -457,27 +547,80 @@ type node struct {
 	heldAfterMsg func()
 	opIdx        int
 	op           Op
+	// The configuration in force as the administrator set it (the oracle's
+	// side): the pool is lo..lo+size-1 (last octets), leaseSec the lease time,
+	// enabled whether DHCP is switched on (a switched-off server has no socket:
+	// no message reaches it).
+	lo, size, leaseSec int
+	enabled            bool
+	// snap is the configuration file's side: what the server itself reported
+	// (WriteDiskConfig, the persisted fields only) when it last announced a
+	// configuration change, as home's config.write does; a restart creates the
+	// server from it.
+	snap diskConf
+	// nModified counts the ConfigModified callbacks.
+	nModified int
+	// undelivered is set while judging a message that reached nobody.
+	undelivered bool
 }
 
+// diskConf is the part of the DHCP configuration that home writes to and reads
+// from AdGuardHome.yaml.
+type diskConf struct {
+	Enabled                 bool
+	Iface                   string
+	GW, Mask, Start, End    netip.Addr
+	LeaseDuration, ICMPTime uint32
+	Options                 []string
+}
+
+// pAddr is the i-th address of the pool in force.
+func (n *node) pAddr(i int) netip.Addr {
+	return netip.MustParseAddr(fmt.Sprintf("%s%d", subnetPfx, n.lo+i))
+}
+
+func (n *node) inPool(a netip.Addr) bool {
+	return a.Is4() && a.Compare(n.pAddr(0)) >= 0 && a.Compare(n.pAddr(n.size-1)) <= 0
+}
+
+// onConfigModified is the live server's ConfigModified callback.
+func (n *node) onConfigModified() {
+	n.nModified++
+	if n.srv == nil {
+		return
+	}
+	c := &dhcpd.ServerConfig{}
+	n.srv.WriteDiskConfig(c)
+	n.snap = diskConf{
+		Enabled: c.Enabled, Iface: c.InterfaceName,
+		GW: c.Conf4.GatewayIP, Mask: c.Conf4.SubnetMask, Start: c.Conf4.RangeStart, End: c.Conf4.RangeEnd,
+		LeaseDuration: c.Conf4.LeaseDuration, ICMPTime: c.Conf4.ICMPTimeout,
+		Options: append([]string(nil), c.Conf4.Options...),
+	}
+}
+
+// conf is the configuration a start of the process creates the server from.
 func (n *node) conf(register bool) *dhcpd.ServerConfig {
 	conf := &dhcpd.ServerConfig{
 		ConfigModified:  func() {},
-		Enabled:         true,
-		InterfaceName:   "verif0",
+		Enabled:         n.snap.Enabled,
+		InterfaceName:   n.snap.Iface,
 		LocalDomainName: "lan",
 		Conf4: dhcpd.V4ServerConf{
-			GatewayIP:     gatewayIP,
-			SubnetMask:    subnetMask,
-			RangeStart:    poolAddr(0),
-			RangeEnd:      poolAddr(n.sc.Pool - 1),
-			LeaseDuration: uint32(n.sc.LeaseSec),
-			ICMPTimeout:   0,
+			GatewayIP:     n.snap.GW,
+			SubnetMask:    n.snap.Mask,
+			RangeStart:    n.snap.Start,
+			RangeEnd:      n.snap.End,
+			LeaseDuration: n.snap.LeaseDuration,
+			ICMPTimeout:   n.snap.ICMPTime,
+			Options:       append([]string(nil), n.snap.Options...),
 		},
 		WorkDir: n.dir,
 		DataDir: n.dir,
 	}
 	if register {
 		conf.HTTPRegister = n.mux.Register
+		conf.ConfigModified = n.onConfigModified
 	}
 	return conf
 }
@@ -685,7 +828,7 @@ func (n *node) static(op Op, tbl []lease) (string, error) {
 	case "sadd":
 		n.resv[hw.String()] = reservation{IP: addr, Host: host}
 		n.c.Probe("static_added")
-		if !inPool(addr, n.sc.Pool) {
+		if !n.inPool(addr) {
 			n.c.Probe("static_added_outside_pool")
 		}
 	case "supd":
@@ -704,8 +847,134 @@ func (n *node) static(op Op, tbl []lease) (string, error) {
 	return desc, nil
 }
 
-func inPool(a netip.Addr, n int) bool {
-	return a.Is4() && a.Compare(poolAddr(0)) >= 0 && a.Compare(poolAddr(n-1)) <= 0
+// setconf sends one POST /control/dhcp/set_config and reports whether the
+// server took the new configuration (it announced a configuration change).
+func (n *node) setconf(op Op) (desc string, accepted bool, err error) {
+	body := map[string]any{}
+	enabled := n.enabled
+	switch op.En {
+	case "on":
+		body["enabled"], enabled = true, true
+	case "off":
+		body["enabled"], enabled = false, false
+	}
+	lo, size, leaseSec := n.lo, n.size, n.leaseSec
+	v4 := map[string]any{"gateway_ip": gatewayIP.String(), "subnet_mask": subnetMask.String()}
+	last := func(o int) string { return fmt.Sprintf("%s%d", subnetPfx, o) }
+	valid := true
+	switch op.V4 {
+	case "":
+		v4 = nil
+	case "same":
+	case "new":
+		if op.Lo < 2 || op.N < 2 || op.Lo+op.N > 255 || op.Ls < 1 {
+			return "", false, fmt.Errorf("harness: bad setconf knobs")
+		}
+		lo, size, leaseSec = op.Lo, op.N, op.Ls
+	case "gw", "outside", "inverted", "nostart":
+		valid = false
+	default:
+		return "", false, fmt.Errorf("harness: unknown v4 section %q", op.V4)
+	}
+	if v4 != nil {
+		v4["range_start"], v4["range_end"], v4["lease_duration"] = last(lo), last(lo+size-1), leaseSec
+		switch op.V4 {
+		case "gw":
+			v4["range_start"], v4["range_end"] = gatewayIP.String(), last(5)
+		case "outside":
+			v4["range_end"] = "192.168.11.5"
+		case "inverted":
+			v4["range_start"], v4["range_end"] = last(lo+size-1), last(lo)
+		case "nostart":
+			v4["range_start"] = ""
+		}
+		body["v4"] = v4
+	}
+	raw, _ := json.Marshal(body)
+	mod0 := n.nModified
+	code, resp, err := n.mux.Do(http.MethodPost, "/control/dhcp/set_config", raw)
+	if err != nil {
+		return "", false, apiErr(err)
+	}
+	accepted = n.nModified != mod0
+	desc = fmt.Sprintf("setconf %s -> %d accepted=%v", raw, code, accepted)
+	switch {
+	case !accepted && code == http.StatusOK:
+		return desc, false, kernel.Violationf("setconf-ok-without-change", "%s: answered 200 but announced no configuration change", desc)
+	case !accepted:
+		if code >= 500 {
+			return desc, false, kernel.Violationf("api-status", "%s %s", desc, strings.TrimSpace(string(resp)))
+		}
+		n.c.Probe("setconf_rejected")
+		return desc, false, nil
+	case !valid:
+		return desc, true, kernel.Violationf("setconf-accepted-invalid-range", "%s: the server took a configuration whose pool is not an address range inside the subnet and clear of the gateway", desc)
+	case code != http.StatusOK && !enabled:
+		return desc, true, kernel.Violationf("api-status", "%s %s", desc, strings.TrimSpace(string(resp)))
+	case code != http.StatusOK:
+		// Switched on: the handler goes on to Start, which probes the network
+		// interface and opens sockets; that part is stubbed (the interface does
+		// not exist), so its error is the stub's.
+		n.c.Probe("setconf_start_stubbed")
+	}
+	n.lo, n.size, n.leaseSec, n.enabled = lo, size, leaseSec, enabled
+	// What Start does between probing the interface and opening the sockets.
+	if !n.srv.VerifV4ConfigureDNSIPAddrs([]net.IP{net.IP(selfIP.AsSlice())}) {
+		return desc, true, kernel.Violationf("setconf-no-v4-server", "%s: no configured DHCPv4 server after an accepted configuration", desc)
+	}
+	if enabled {
+		n.c.Probe("setconf_enabled")
+	} else {
+		n.c.Probe("setconf_disabled")
+	}
+	if lo != poolBase || size != n.sc.Pool {
+		n.c.Probe("setconf_range_changed")
+	}
+	return desc, true, nil
+}
+
+// afterReload is run after an operation that created the lease table anew from
+// leases.json (a restart, an accepted set_config): before/live are the table
+// and the answers before it, diskBefore what leases.json listed then.
+func (n *node) afterReload(before, diskBefore []lease, diskErr error, live answerer) error {
+	c := n.c
+	var exempt []lease
+	for _, l := range before {
+		if !l.Static && !n.inPool(l.IP) {
+			// A dynamic lease outside the pool now in force: the statement
+			// wants dynamic addresses inside the configured pool and leaves
+			// open what becomes of such a lease.
+			exempt = append(exempt, l)
+			c.Probe("lease_outside_new_pool")
+		}
+	}
+	// Direct form of I7 (the shadow check after the previous op is the same
+	// comparison; this one does not depend on it).
+	if diskErr == nil && equalStrings(sortedStrings(diskBefore), sortedStrings(before)) {
+		if err := n.compareRestart(before, live, n.srv, exempt...); err != nil {
+			return err
+		}
+	} else if diskErr == nil {
+		// The disk differed from memory (already reported when it arose): the
+		// reload takes the disk's version.
+		c.Probe("restart_from_stale_disk")
+	}
+	// Whatever the reload dropped has been reported (or is a listed finding):
+	// the reservations are now what came back.
+	cur, _, _ := n.tableOf(n.srv)
+	for _, m := range sortedKeys(n.resv) {
+		if l, ok := findStatic(cur, m); !ok || l.IP != n.resv[m].IP {
+			delete(n.resv, m)
+			c.Probe("reservation_dropped_by_restart")
+		}
+	}
+	for _, l := range cur {
+		// A reservation that only the stale disk still knew.
+		if _, ok := n.resv[l.MAC]; l.Static && !ok {
+			n.resv[l.MAC] = reservation{IP: l.IP, Host: l.Host}
+		}
+	}
+	return nil
 }
 
 // ---- the oracle ------------------------------------------------------------------
@@ -817,8 +1086,8 @@ func (n *node) check(before []lease, resvBefore map[string]reservation, replies 
 			continue
 		}
 		switch {
-		case !inPool(r.Yi, n.sc.Pool):
-			err = n.report(kernel.Violationf("dynamic-outside-pool", "client %s (no reservation) was given %s, outside the pool %s-%s", mac, r.Yi, poolAddr(0), poolAddr(n.sc.Pool-1)), mac)
+		case !n.inPool(r.Yi):
+			err = n.report(kernel.Violationf("dynamic-outside-pool", "client %s (no reservation) was given %s, outside the pool %s-%s", mac, r.Yi, n.pAddr(0), n.pAddr(n.size-1)), mac)
 		case r.Yi == gatewayIP:
 			err = n.report(kernel.Violationf("dynamic-on-gateway", "client %s was given the gateway address %s", mac, r.Yi), mac)
 		default:
@@ -894,7 +1163,7 @@ func (n *node) check(before []lease, resvBefore map[string]reservation, replies 
 			continue
 		}
 		switch {
-		case !inPool(l.IP, n.sc.Pool):
+		case !n.inPool(l.IP):
 			tv, tsubj = kernel.Violationf(n.afterOp("dynamic-outside-pool"), "dynamic lease [%s] lies outside the pool", l), l.key()
 		case l.IP == gatewayIP:
 			tv, tsubj = kernel.Violationf(n.afterOp("dynamic-on-gateway"), "dynamic lease [%s] is on the gateway address", l), l.key()
@@ -971,7 +1240,7 @@ func (n *node) check(before []lease, resvBefore map[string]reservation, replies 
 	}
 
 	// -- I5: offer liveness.
-	if op.K == "discover" {
+	if op.K == "discover" && !n.undelivered {
 		_, known := findMAC(before, mac)
 		_, reserved := resvBefore[mac]
 		if !known && !reserved {
@@ -985,8 +1254,8 @@ func (n *node) check(before []lease, resvBefore map[string]reservation, replies 
 				taken[resvBefore[m].IP] = true
 			}
 			var free []string
-			for i := 0; i < n.sc.Pool; i++ {
-				if a := poolAddr(i); !taken[a] {
+			for i := 0; i < n.size; i++ {
+				if a := n.pAddr(i); !taken[a] {
 					free = append(free, a.String())
 				}
 			}
@@ -997,7 +1266,7 @@ func (n *node) check(before []lease, resvBefore map[string]reservation, replies 
 				cls := "no-offer-with-free-address"
 				leaked := 0
 				for _, off := range raw.LeasedOffsets {
-					if a := poolAddr(int(off)); !taken[a] {
+					if a := n.pAddr(int(off)); !taken[a] {
 						held := false
 						for _, l := range tbl {
 							held = held || l.IP == a
@@ -1026,8 +1295,8 @@ func (n *node) check(before []lease, resvBefore map[string]reservation, replies 
 					held[l.IP] = true
 				}
 				full := true
-				for i := 0; i < n.sc.Pool; i++ {
-					full = full && held[poolAddr(i)]
+				for i := 0; i < n.size; i++ {
+					full = full && held[n.pAddr(i)]
 				}
 				if full {
 					// Every pool address had an entry: the offer re-uses an
@@ -1037,7 +1306,7 @@ func (n *node) check(before []lease, resvBefore map[string]reservation, replies 
 			}
 		}
 	}
-	if isMsg {
+	if isMsg && !n.undelivered {
 		for _, l := range before {
 			if !l.Static && !l.Exp.IsZero() && !l.active(now) {
 				n.c.Probe("expired_lease_in_table")
@@ -1068,7 +1337,11 @@ func (n *node) check(before []lease, resvBefore map[string]reservation, replies 
 		// repair is the earlier finding, not a new one.
 		sig := strings.Join(got, ";") + " != " + strings.Join(want, ";")
 		if sig != n.staleSig {
-			if err = n.report(kernel.Violationf(n.afterOp("disk-stale"), "leases.json lists %v but the in-memory table is %v", got, want), sig); err != nil {
+			cls := n.afterOp("disk-stale")
+			if op.K == "setconf" {
+				cls += n.reloadDiffSuffix(disk, tbl)
+			}
+			if err = n.report(kernel.Violationf(cls, "leases.json lists %v but the in-memory table is %v", got, want), sig); err != nil {
 				return err
 			}
 			n.staleSig = sig
@@ -1091,12 +1364,154 @@ func (n *node) check(before []lease, resvBefore map[string]reservation, replies 
 	return nil
 }
 
+// answerer is the side of a server that compareRestart reads on the "before"
+// side: the live server, or its answers recorded before an operation that
+// reloads the table in place.
+type answerer interface {
+	HostByIP(ip netip.Addr) string
+	IPByHost(host string) netip.Addr
+	VerifV4Table() *dhcpd.VerifV4Table
+}
+
+// recorded holds the answers a server gave to DNS at one moment, for every
+// address of the subnet (and the one outside it) and every name in use.
+type recorded struct {
+	byIP   map[netip.Addr]string
+	byHost map[string]netip.Addr
+	raw    *dhcpd.VerifV4Table
+}
+
+func (r *recorded) HostByIP(ip netip.Addr) string     { return r.byIP[ip] }
+func (r *recorded) IPByHost(host string) netip.Addr   { return r.byHost[host] }
+func (r *recorded) VerifV4Table() *dhcpd.VerifV4Table { return r.raw }
+
+// record asks the live server for all the answers compareRestart may want.
+func (n *node) record(tbl []lease) *recorded {
+	r := &recorded{byIP: map[netip.Addr]string{}, byHost: map[string]netip.Addr{}, raw: n.srv.VerifV4Table()}
+	ask := func(h string) {
+		if _, ok := r.byHost[h]; !ok && h != "" {
+			r.byHost[h] = n.srv.IPByHost(h)
+		}
+	}
+	for i := 0; i < 256; i++ {
+		a := netip.MustParseAddr(fmt.Sprintf("%s%d", subnetPfx, i))
+		r.byIP[a] = n.srv.HostByIP(a)
+		ask(dashed(a))
+	}
+	_, other := addrAlphabet(n.sc.Pool)
+	for _, o := range other {
+		a := netip.MustParseAddr(o)
+		r.byIP[a] = n.srv.HostByIP(a)
+		ask(dashed(a))
+	}
+	for _, h := range hostAlphabet {
+		ask(h)
+		ask(strings.ToLower(h))
+		ask(strings.ReplaceAll(strings.ToLower(h), " ", "-"))
+	}
+	for _, l := range tbl {
+		r.byIP[l.IP] = n.srv.HostByIP(l.IP)
+		ask(l.Host)
+	}
+	return r
+}
+
+// reloadDiffSuffix explains a difference between leases.json and the table
+// right after a configuration change reloaded the table: "-generated-name" when
+// the only difference is dynamic entries without a hostname on disk that carry
+// the name made from their address in memory, "-generated-name-clash" or
+// "-duplicate-hostname" when (besides) leases are missing in memory for the
+// reasons compareRestart names so, "-lease-outside-new-pool" when
+// (besides) only dynamic leases outside the pool now in force are missing in
+// memory, "" when the difference is anything else.
+func (n *node) reloadDiffSuffix(disk, tbl []lease) string {
+	cnt := map[string]int{}
+	for _, l := range tbl {
+		cnt[l.String()]++
+	}
+	var diskOnly []lease
+	for _, l := range disk {
+		if cnt[l.String()] > 0 {
+			cnt[l.String()]--
+		} else {
+			diskOnly = append(diskOnly, l)
+		}
+	}
+	outside, clash, dup := false, false, false
+	for _, d := range diskOnly {
+		renamed := d
+		renamed.Host = dashed(d.IP)
+		if !d.Static && d.Host == "" && cnt[renamed.String()] > 0 {
+			cnt[renamed.String()]--
+			continue
+		}
+		if !d.Static && !n.inPool(d.IP) {
+			outside = true
+			continue
+		}
+		// The explanations compareRestart gives for a lease lost on load.
+		sameName, nameClash := 0, false
+		for _, o := range disk {
+			if o.Host == d.Host && d.Host != "" {
+				sameName++
+			}
+			if (o.Host == "" && !o.Static && d.Host != "" && dashed(o.IP) == d.Host) || (d.Host == "" && !d.Static && o.Host == dashed(d.IP)) {
+				nameClash = true
+			}
+		}
+		switch {
+		case nameClash:
+			clash = true
+		case sameName > 1:
+			dup = true
+		default:
+			return ""
+		}
+	}
+	for _, k := range sortedKeys(cnt) {
+		if cnt[k] > 0 {
+			// In memory but not on disk.
+			return ""
+		}
+	}
+	switch {
+	case outside:
+		return "-lease-outside-new-pool"
+	case clash:
+		return "-generated-name-clash"
+	case dup:
+		return "-duplicate-hostname"
+	}
+	return "-generated-name"
+}
+
 // compareRestart compares the table and the DNS-facing answers of the live
-// server with those of a server created from the same directory.
-func (n *node) compareRestart(tbl []lease, live, re dhcpServer) error {
+// server (tbl, live: before) with those of a server created from the same
+// directory, or of the same server after it reloaded the table (re: after).
+// Leases in exempt are not compared (the statement leaves their fate open).
+func (n *node) compareRestart(tbl []lease, live answerer, re dhcpServer, exempt ...lease) error {
 	after, _, err := n.tableOf(re)
 	if err != nil {
 		return err
+	}
+	how := "a restart"
+	if _, ok := live.(*recorded); ok {
+		how = "set_config reloaded the table from leases.json (as a restart does)"
+	}
+	if len(exempt) > 0 {
+		ex := map[string]bool{}
+		for _, l := range exempt {
+			ex[l.key()] = true
+		}
+		keep := func(ls []lease) (out []lease) {
+			for _, l := range ls {
+				if !ex[l.key()] || l.Static {
+					out = append(out, l)
+				}
+			}
+			return out
+		}
+		tbl, after = keep(tbl), keep(after)
 	}
 	type k struct {
 		ip     netip.Addr
@@ -1111,6 +1526,9 @@ func (n *node) compareRestart(tbl []lease, live, re dhcpServer) error {
 	skip := func(a, b lease) {
 		skipIP[a.IP] = true
 		skipHost[a.Host], skipHost[b.Host] = true, true
+	}
+	for _, l := range exempt {
+		skip(l, lease{IP: l.IP, Host: dashed(l.IP)})
 	}
 	bm := map[k]bool{}
 	for _, l := range tbl {
@@ -1142,18 +1560,18 @@ func (n *node) compareRestart(tbl []lease, live, re dhcpServer) error {
 					cls = "restart-lease-lost-duplicate-hostname"
 				}
 			}
-			v = kernel.Violationf(cls, "lease [%s] is not in the table after a restart (restarted table: %v)", l, sortedStrings(after))
+			v = kernel.Violationf(cls, "lease [%s] is not in the table after %s (table then: %v)", l, how, sortedStrings(after))
 			if cls == "restart-lease-lost-duplicate-hostname" {
 				// Two leases under one name: the hostname index is corrupt for
 				// the rest of the case.
 				taint = true
 			}
 		case a.Host != l.Host && l.Host == "" && a.Host == dashed(l.IP):
-			v = kernel.Violationf("restart-empty-hostname-generated", "lease [%s] has no hostname, after a restart it is named %q: HostByIP/IPByHost answers change", l, a.Host)
+			v = kernel.Violationf("restart-empty-hostname-generated", "lease [%s] has no hostname, after %s it is named %q: HostByIP/IPByHost answers change", l, how, a.Host)
 		case a.Host != l.Host:
-			v = kernel.Violationf("restart-hostname-changed", "lease [%s] comes back from a restart as [%s]", l, a)
+			v = kernel.Violationf("restart-hostname-changed", "lease [%s] comes back from %s as [%s]", l, how, a)
 		case !l.Static && a.Exp.Unix() != l.Exp.Unix():
-			v = kernel.Violationf("restart-expiry-changed", "lease [%s] comes back from a restart as [%s]", l, a)
+			v = kernel.Violationf("restart-expiry-changed", "lease [%s] comes back from %s as [%s]", l, how, a)
 		}
 		if v != nil {
 			skip(l, a)
@@ -1169,7 +1587,7 @@ func (n *node) compareRestart(tbl []lease, live, re dhcpServer) error {
 	for _, l := range after {
 		if !bm[k{l.IP, l.MAC, l.Static}] {
 			skip(l, l)
-			if err = n.report(kernel.Violationf("restart-lease-appeared", "lease [%s] appears in the table after a restart but was not in memory before (%v)", l, sortedStrings(tbl)), l.key()); err != nil {
+			if err = n.report(kernel.Violationf("restart-lease-appeared", "lease [%s] appears in the table after %s but was not in memory before (%v)", l, how, sortedStrings(tbl)), l.key()); err != nil {
 				return err
 			}
 		}
@@ -1180,6 +1598,10 @@ func (n *node) compareRestart(tbl []lease, live, re dhcpServer) error {
 	for i := 0; i < n.sc.Pool; i++ {
 		ips[poolAddr(i)] = true
 		hosts[dashed(poolAddr(i))] = true
+	}
+	for i := 0; i < n.size; i++ {
+		ips[n.pAddr(i)] = true
+		hosts[dashed(n.pAddr(i))] = true
 	}
 	_, other := addrAlphabet(n.sc.Pool)
 	for _, s := range other {
@@ -1197,12 +1619,18 @@ func (n *node) compareRestart(tbl []lease, live, re dhcpServer) error {
 		ipList = append(ipList, a)
 	}
 	sort.Slice(ipList, func(i, j int) bool { return ipList[i].Less(ipList[j]) })
+	rec, _ := live.(*recorded)
 	for _, a := range ipList {
 		if skipIP[a] {
 			continue
 		}
+		if rec != nil {
+			if _, ok := rec.byIP[a]; !ok {
+				continue
+			}
+		}
 		if b, r := live.HostByIP(a), re.HostByIP(a); b != r {
-			if err = n.report(kernel.Violationf("restart-dns-answer-changed", "HostByIP(%s) = %q before and %q after a restart; table %v", a, b, r, sortedStrings(tbl)), a.String()); err != nil {
+			if err = n.report(kernel.Violationf("restart-dns-answer-changed", "HostByIP(%s) = %q before and %q after %s; table %v", a, b, r, how, sortedStrings(tbl)), a.String()); err != nil {
 				return err
 			}
 		}
@@ -1210,6 +1638,12 @@ func (n *node) compareRestart(tbl []lease, live, re dhcpServer) error {
 	for _, h := range sortedKeys(hosts) {
 		if skipHost[h] || h == "" {
 			continue
+		}
+		if rec != nil {
+			if _, ok := rec.byHost[h]; !ok {
+				// A name nobody asked the server about before the reload.
+				continue
+			}
 		}
 		b, r := live.IPByHost(h), re.IPByHost(h)
 		if b != r && !skipIP[b] && !skipIP[r] {
@@ -1221,7 +1655,7 @@ func (n *node) compareRestart(tbl []lease, live, re dhcpServer) error {
 					cls = "restart-dns-answer-changed-stale-hostname-index"
 				}
 			}
-			if err = n.report(kernel.Violationf(cls, "IPByHost(%q) = %v before and %v after a restart; table %v", h, b, r, sortedStrings(tbl)), h); err != nil {
+			if err = n.report(kernel.Violationf(cls, "IPByHost(%q) = %v before and %v after %s; table %v", h, b, r, how, sortedStrings(tbl)), h); err != nil {
 				return err
 			}
 		}
@@ -1261,7 +1695,7 @@ func copyResv(m map[string]reservation) map[string]reservation {
 // ---- the run -----------------------------------------------------------------------
 
 func (n *node) step(i int, op Op) error {
-	n.opIdx, n.op = i, op
+	n.opIdx, n.op, n.undelivered = i, op, false
 	c := n.c
 	before, _, err := n.tableOf(n.srv)
 	if err != nil {
@@ -1274,6 +1708,14 @@ func (n *node) step(i int, op Op) error {
 	)
 	switch op.K {
 	case "discover", "request", "decline", "release":
+		if !n.enabled {
+			// DHCP is switched off: the server has no socket, the message
+			// reaches nobody.
+			n.undelivered = true
+			c.Probe("message_while_disabled")
+			desc = fmt.Sprintf("%s m=%d not delivered (DHCP disabled)", op.K, op.M)
+			break
+		}
 		if replies, err = n.send(op, before); err != nil {
 			return err
 		}
@@ -1311,7 +1753,7 @@ func (n *node) step(i int, op Op) error {
 							delete(n.held, a)
 						}
 					}
-					n.held[r.Yi] = holder{mac: me, exp: time.Now().Add(time.Duration(n.sc.LeaseSec) * time.Second)}
+					n.held[r.Yi] = holder{mac: me, exp: time.Now().Add(time.Duration(n.leaseSec) * time.Second)}
 				}
 			}
 		}
@@ -1335,7 +1777,7 @@ func (n *node) step(i int, op Op) error {
 		d := time.Duration(op.Ms) * time.Millisecond
 		time.Sleep(d)
 		c.SimTime += d
-		if op.Ms >= int64(n.sc.LeaseSec)*1000 {
+		if op.Ms >= int64(n.leaseSec)*1000 {
 			c.Fault("clock_jump_past_lease_time")
 		}
 		desc = fmt.Sprintf("advance %s", d)
@@ -1350,31 +1792,43 @@ func (n *node) step(i int, op Op) error {
 		}
 		desc = "restart"
 		if !n.tainted {
-			// Direct form of I7 (the shadow check after the previous op is
-			// the same comparison; this one does not depend on it).
-			if d, _, derr := readDisk(n.srv.VerifDBPath()); derr == nil && equalStrings(sortedStrings(d), sortedStrings(before)) {
-				if err = n.compareRestart(before, old, n.srv); err != nil {
+			d, _, derr := readDisk(n.srv.VerifDBPath())
+			if err = n.afterReload(before, d, derr, old); err != nil {
+				return err
+			}
+		}
+	case "setconf":
+		var (
+			d    []lease
+			derr error
+			rec  *recorded
+			ok   bool
+		)
+		if !n.tainted {
+			d, _, derr = readDisk(n.srv.VerifDBPath())
+			rec = n.record(before)
+		}
+		if desc, ok, err = n.setconf(op); err != nil {
+			return err
+		}
+		if ok {
+			c.Fault("config_reload")
+			if len(before) > 0 {
+				c.Probe("setconf_with_leases")
+			}
+		}
+		if !n.tainted {
+			cur, _, terr := n.tableOf(n.srv)
+			if terr != nil {
+				return terr
+			}
+			switch {
+			case ok:
+				if err = n.afterReload(before, d, derr, rec); err != nil {
 					return err
 				}
-			} else if derr == nil {
-				// The disk differed from memory (already reported when it
-				// arose): the restart loads the disk's version.
-				c.Probe("restart_from_stale_disk")
-			}
-			// Whatever the restart dropped has been reported (or is a listed
-			// finding): the reservations are now what came back.
-			cur, _, _ := n.tableOf(n.srv)
-			for _, m := range sortedKeys(n.resv) {
-				if l, ok := findStatic(cur, m); !ok || l.IP != n.resv[m].IP {
-					delete(n.resv, m)
-					c.Probe("reservation_dropped_by_restart")
-				}
-			}
-			for _, l := range cur {
-				// A reservation that only the stale disk still knew.
-				if _, ok := n.resv[l.MAC]; l.Static && !ok {
-					n.resv[l.MAC] = reservation{IP: l.IP, Host: l.Host}
-				}
+			case !equalStrings(sortedStrings(cur), sortedStrings(before)):
+				return n.report(kernel.Violationf("setconf-rejected-changed-table", "%s: the request was refused but the table changed from %v to %v", desc, sortedStrings(before), sortedStrings(cur)), "")
 			}
 		}
 	default:
@@ -1437,6 +1891,8 @@ func Run(t *testing.T, scAny any, c *kernel.Ctx) error {
 	return kernel.Bubble(t, func() error {
 		time.Sleep(time.Duration(sc.StartMs) * time.Millisecond)
 		n := &node{dir: dir, sc: sc, c: c, clients: make([]client, sc.Macs), resv: map[string]reservation{}, seen: map[string]bool{}, held: map[netip.Addr]holder{}}
+		n.lo, n.size, n.leaseSec, n.enabled = poolBase, sc.Pool, sc.LeaseSec, true
+		n.snap = diskConf{Enabled: true, Iface: "verif0", GW: gatewayIP, Mask: subnetMask, Start: poolAddr(0), End: poolAddr(sc.Pool - 1), LeaseDuration: uint32(sc.LeaseSec)}
 		if err := n.open(); err != nil {
 			return err
 		}
@@ -1457,18 +1913,19 @@ func Run(t *testing.T, scAny any, c *kernel.Ctx) error {
 var Prop = &kernel.Property{
 	ID:    "C10",
 	Level: "exploration",
-	Rule: "seeded histories (rapid) of DISCOVER / REQUEST (selecting with right or wrong server id and requested address, init-reboot, renew) / DECLINE / RELEASE from 1-25 simulated clients over a pool of 2-20 addresses, hostnames (valid, duplicate, invalid, empty, colliding with generated names), static-lease add/update/remove through the real HTTP handlers (inside/outside the pool, gateway, duplicates, malformed), clock advances aimed at the lease time, restarts; " +
-		"a case is non-trivial when >=1 dynamic lease was acknowledged and it saw >=1 restart, clock jump past the lease time, pool exhaustion or accepted static-lease operation; distinct = distinct scenario digests",
+	Rule: "seeded histories (rapid) of DISCOVER / REQUEST (selecting with right or wrong server id and requested address, init-reboot, renew) / DECLINE / RELEASE from 1-25 simulated clients over a pool of 2-20 addresses, hostnames (valid, duplicate, invalid, empty, colliding with generated names), static-lease add/update/remove through the real HTTP handlers (inside/outside the pool, gateway, duplicates, malformed), clock advances aimed at the lease time, restarts, POST /control/dhcp/set_config (DHCP switched off and on again, the same or a moved/grown/shrunk range and lease time, invalid and incomplete sections) with static-lease operations, time and restarts while switched off; " +
+		"a case is non-trivial when >=1 dynamic lease was acknowledged and it saw >=1 restart, accepted configuration change, clock jump past the lease time, pool exhaustion or accepted static-lease operation; distinct = distinct scenario digests",
 	Gen: Gen,
 	New: func() any { return &Scenario{} },
 	Run: Run,
 	NonTrivial: func(_ any, c *kernel.Ctx) bool {
-		return c.Probes["dynamic_lease_acked"] > 0 && (c.Faults["clean_restart"] > 0 || c.Faults["clock_jump_past_lease_time"] > 0 || c.Faults["pool_exhausted"] > 0 || c.Probes["static_added"]+c.Probes["static_updated"]+c.Probes["static_removed"] > 0)
+		return c.Probes["dynamic_lease_acked"] > 0 && (c.Faults["clean_restart"] > 0 || c.Faults["config_reload"] > 0 || c.Faults["clock_jump_past_lease_time"] > 0 || c.Faults["pool_exhausted"] > 0 || c.Probes["static_added"]+c.Probes["static_updated"]+c.Probes["static_removed"] > 0)
 	},
-	Real:        []string{"internal/dhcpd: Create, v4Server packet handler (handle, discover/request/decline/release), static-lease HTTP handlers, lease indexes and pool bitset, dbStore/dbLoad + leases.json (renameio) on tmpfs", "github.com/insomniacslk/dhcp/dhcpv4 wire format (requests and replies cross it)"},
-	Stub:        []string{"DHCP raw/UDP sockets (fake net.PacketConn capturing replies)", "interface probing of Start (server addresses injected through configureDNSIPAddrs)", "ICMP conflict probe (ICMPTimeout=0)", "DHCP clients (simulated state machines)", "admin HTTP client (handlers called in-process)", "wall clock (synctest fake clock)", "DHCPv6 (disabled)"},
-	Assumptions: []string{"reservations are what the static-lease API itself confirmed with 200", "a lease is unexpired while its expiry is after now; at the exact expiry instant an address counts as taken for the offer-liveness clause only", "addresses merely offered (never acknowledged) do not count as leased for the offer-liveness clause", "expiry is compared at one-second resolution across disk and restart, and the last second of a client's lease is not judged (leases.json and the lease-time option carry whole seconds)", "a client holds an acknowledged address until its lease time runs out, it sends RELEASE/DECLINE, it is NAKed, or an administrator operation / restart removes the lease from the table (those removals are judged by I6/I7)", "all-zero MAC (the implementation's conflict marker) and 8/20-byte hardware addresses are not generated", "after a listed finding that leaves the table persistently corrupt (same lease listed twice, I1/I2/I3 broken, two leases under one hostname, a reserved client answered another address) the rest of that case only looks for crashes; listed findings that heal with the next store or only concern a restart do not end the checking"},
-	FaultKinds:  []string{"clean_restart", "clock_jump_past_lease_time", "pool_exhausted", "client_wrong_server_id"},
+	Real:        []string{"internal/dhcpd: Create, v4Server packet handler (handle, discover/request/decline/release), static-lease and set_config HTTP handlers, WriteDiskConfig (a restart is created from what the server reported at its last ConfigModified), lease indexes and pool bitset, dbStore/dbLoad + leases.json (renameio) on tmpfs", "github.com/insomniacslk/dhcp/dhcpv4 wire format (requests and replies cross it)"},
+	Stub:        []string{"DHCP raw/UDP sockets (fake net.PacketConn capturing replies)", "interface probing of Start (server addresses injected through configureDNSIPAddrs; the Start that set_config attempts fails on the non-existent interface and its error answer is disregarded)", "ICMP conflict probe (ICMPTimeout=0)", "DHCP clients (simulated state machines)", "admin HTTP client (handlers called in-process)", "wall clock (synctest fake clock)", "DHCPv6 (disabled)"},
+	Assumptions: []string{"reservations are what the static-lease API itself confirmed with 200", "a lease is unexpired while its expiry is after now; at the exact expiry instant an address counts as taken for the offer-liveness clause only", "addresses merely offered (never acknowledged) do not count as leased for the offer-liveness clause", "expiry is compared at one-second resolution across disk and restart, and the last second of a client's lease is not judged (leases.json and the lease-time option carry whole seconds)", "a client holds an acknowledged address until its lease time runs out, it sends RELEASE/DECLINE, it is NAKed, or an administrator operation / restart removes the lease from the table (those removals are judged by I6/I7)", "while DHCP is switched off no message reaches the server", "a configuration is in force when the server announced the change (ConfigModified); what becomes of dynamic leases outside a newly configured pool is left open and not asserted (they must not stay in the table as dynamic leases)", "all-zero MAC (the implementation's conflict marker) and 8/20-byte hardware addresses are not generated", "after a listed finding that leaves the table persistently corrupt (same lease listed twice, I1/I2/I3 broken, two leases under one hostname, a reserved client answered another address) the rest of that case only looks for crashes; listed findings that heal with the next store or only concern a restart do not end the checking"},
+	FaultKinds:  []string{"clean_restart", "config_reload", "clock_jump_past_lease_time", "pool_exhausted", "client_wrong_server_id"},
 	ProbeNames: []string{"offer", "ack", "nak", "silent", "dynamic_lease_acked", "static_lease_acked", "reply_to_reserved_client", "static_added", "static_added_outside_pool", "static_updated", "static_removed", "static_remove_hit_dynamic", "static_rejected",
-		"decline_reallocated", "release_removed_lease", "discover_new_client_free_address", "offer_recycled_entry", "expired_lease_in_table", "restart_with_leases", "shadow_restart_checked", "held_lease_revoked_by_admin_or_restart", "reservation_dropped_by_restart", "restart_from_stale_disk", "table_dup_seen", "table_invariant_broken_seen", "disk_differs_seen", "ops_after_taint"},
+		"decline_reallocated", "release_removed_lease", "discover_new_client_free_address", "offer_recycled_entry", "expired_lease_in_table", "restart_with_leases", "shadow_restart_checked", "held_lease_revoked_by_admin_or_restart", "reservation_dropped_by_restart", "restart_from_stale_disk", "table_dup_seen", "table_invariant_broken_seen", "disk_differs_seen", "ops_after_taint",
+		"setconf_enabled", "setconf_disabled", "setconf_range_changed", "setconf_rejected", "setconf_start_stubbed", "setconf_with_leases", "message_while_disabled", "lease_outside_new_pool"},
 }
